@@ -314,6 +314,25 @@ func runC15(c *core.Ctx) {
 		} else {
 			at = now.Unix() + delta
 		}
+		// ... and over the whole range of the 32-bit second fields, not only the year around today:
+		// any instant at least a day away from now, the boundaries of the field included
+		switch (i / 2) % 4 {
+		case 1:
+			if past {
+				at = 65536 + int64(r.Uint64()%uint64(now.Unix()-86400-65536))
+			} else {
+				at = now.Unix() + 86400 + int64(r.Uint64()%uint64(int64(1<<32-1)-now.Unix()-86400))
+			}
+		case 2:
+			if past {
+				at = []int64{65536, 65537, 86400, 1 << 20, 1 << 30, 1000000000}[r.Pick(6)]
+			} else {
+				at = []int64{1<<31 - 1, 1 << 31, 1<<31 + 1, 3000000000, 4000000000, 1<<32 - 2, 1<<32 - 1}[r.Pick(7)]
+			}
+		}
+		if at <= now.Unix()-86400 != past || (at >= now.Unix()+86400) == past {
+			return
+		}
 		sh := gen.Shape{"past": past}
 		in := []byte(fmt.Sprint(at))
 		c.Nontrivial([]byte("day"), in)
